@@ -34,7 +34,7 @@ def prepare(run):
 def main(run):
     quick = run.tier == "quick"
     LP = 4 if quick else 5          # build-plan builder calls
-    LL = 3 if quick else 4          # launch builder calls
+    LL = 3                          # launch builder calls (quick: representative process shapes; thorough: the full product of shapes)
     run.bounds = {"build plan": f"every BuildPlanBuilder call sequence of length 0..{LP} over {{provides, requires, requires with metadata, or}} (so empty groups in every position), names SMT strings",
                   "launch": f"every LaunchBuilder call sequence of length 0..{LL} over {{process (command of 1..2 words, 0..1 args, default flag symbolic, working directory app | symbolic path), label, slice (1..2 globs)}}, all payloads SMT strings",
                   "store": "metadata table (identity-tracked)", "exec.d": "0..2 key/value pairs, keys in the key grammar, values arbitrary strings"}
